@@ -536,6 +536,8 @@ def run(ctx):
         "a_local / a_store / a_readback are the file system's observed answers (the modelled file system is C08's)",
         "one key-keeper task per SharedState; actor channel failures (send/recv errors) are not modelled",
     ]
+    for name in kkdrv.pinned_consts():
+        ctx.assumptions.append("constant %s not located in the source: pinned default used, tied by the correspondence run only" % name)
     if consts_problem is not None:
         proofs_ok, detail = False, "constants translator: %s" % consts_problem
     verdict(ctx, proofs_ok, detail, disagreements, failures,
